@@ -12,6 +12,8 @@ import (
 	"log"
 	"os"
 	"reflect"
+	"runtime/debug"
+	"strings"
 	"sync"
 	"unsafe"
 
@@ -75,6 +77,7 @@ const (
 type asmError struct {
 	Phase string
 	Err   error
+	Where string // for a panic: the innermost function of the repository on the stack
 }
 
 func (e *asmError) Error() string { return e.Phase + ": " + e.Err.Error() }
@@ -124,23 +127,23 @@ func assemble(src string, cfg string) (bm *bondmachine.Bondmachine, aerr *asmErr
 	defer func() {
 		if r := recover(); r != nil {
 			bm = nil
-			aerr = &asmError{Phase: phase + "-panic", Err: fmt.Errorf("%v", r)}
+			aerr = &asmError{Phase: phase + "-panic", Err: fmt.Errorf("%v", r), Where: panicSite(string(debug.Stack()))}
 		}
 	}()
 	if err := bi.ParseAssemblyStringDefault(src); err != nil {
-		return nil, &asmError{phParse, err}
+		return nil, &asmError{Phase: phParse, Err: err}
 	}
 	phase = phRun
 	if err := bi.RunAssembler(); err != nil {
-		return nil, &asmError{phRun, err}
+		return nil, &asmError{Phase: phRun, Err: err}
 	}
 	phase = phBM
 	if err := bi.Assembler2BondMachine(); err != nil {
-		return nil, &asmError{phBM, err}
+		return nil, &asmError{Phase: phBM, Err: err}
 	}
 	bm = bi.GetBondMachine()
 	if bm == nil {
-		return nil, &asmError{phBM, fmt.Errorf("GetBondMachine returned nil")}
+		return nil, &asmError{Phase: phBM, Err: fmt.Errorf("GetBondMachine returned nil")}
 	}
 	return bm, nil
 }
@@ -153,6 +156,10 @@ func simulate(bm *bondmachine.Bondmachine, env gen.Env, ticks int) (out [][]uint
 			err = fmt.Errorf("simulator panic: %v", r)
 		}
 	}()
+	if len(bm.Processors) == 0 {
+		// bondmachine.VM.Step waits for the answer of at least one processor: it would never return
+		return nil, nil, fmt.Errorf("machine without processors")
+	}
 	r, e := gen.NewRunner(bm, env, nil)
 	if e != nil {
 		return nil, nil, e
@@ -167,3 +174,17 @@ func simulate(bm *bondmachine.Bondmachine, env gen.Env, ticks int) (out [][]uint
 }
 
 func procbuilderAllopcodes() []procbuilder.Opcode { return procbuilder.Allopcodes }
+
+// panicSite extracts the innermost frame of the repository from a stack dump ("basm.templateResolver").
+func panicSite(stack string) string {
+	for _, l := range strings.Split(stack, "\n") {
+		if i := strings.Index(l, "BondMachineHQ/BondMachine/pkg/"); i >= 0 && !strings.HasPrefix(l, "\t") {
+			f := l[i+len("BondMachineHQ/BondMachine/pkg/"):]
+			if j := strings.LastIndexByte(f, '('); j > 0 {
+				f = f[:j]
+			}
+			return f
+		}
+	}
+	return ""
+}
